@@ -254,7 +254,10 @@ def c03_2(ctx: Ctx) -> RuleResult:
                 res.add(m, call_, f"{name} are computed iff the number of successful realizations >= realization_min_success", not why, why, construct=f"{m.name}: gate {name}")
                 ok2 = bool(nones) and all(gate_pol(c) is True for c, _l in nones)
                 res.add(m, call_, f"below the threshold no {name} are reported (None)", ok2, "" if ok2 else "the failing branch does not yield None", construct=f"{m.name}: gate else None {name}")
-    res.floor = 9
+    kinds = {i.construct.rsplit(" ", 1)[-1] for i in res.instances if ": gate " in i.construct}
+    if not {"functions", "gradients"} <= kinds:
+        raise AnalysisError(f"result constructions with computed functions and gradients not found (found {sorted(kinds)})")
+    res.floor = 5
     return res
 
 
@@ -388,5 +391,5 @@ def c03_5(ctx: Ctx) -> RuleResult:
                         "" if ok else "flags and reported evaluations come from different evaluations", construct=f"{m.name}: flags from same evaluation")
     if n == 0:
         raise AnalysisError("no GradientResults construction found")
-    res.floor = 6
+    res.floor = 4  # at least one construction site with its four clauses (sites may be shared by several paths)
     return res
